@@ -48,7 +48,9 @@ UVL_KEYWORDS = ["features", "constraints", "mandatory", "optional", "or", "alter
 OPERATOR_WORDS = ["AND", "OR", "NOT", "XOR", "IMPLIES", "REQUIRES", "EXCLUDES", "EQUIVALENCE",
                   "EQUALS", "LOWER", "GREATER", "ADD", "SUB", "MUL", "DIV", "SUM", "AVG", "LEN",
                   "x AND y", "a OR b", "NOT z", "p XOR q", "n IMPLIES m"]
-ODD_UVL = ["a--b", "-1", "+1", "007", "1e3", "0x10", "1_000", "-", "+", "½", "%s", "{0}", "$1", "a // b", "see // the manual", "/* x */", "x /* y", "*/", "http://h/a//b", "1a", "42", "_x", "_", "a#b", "a§b", "a'b", "a;b", "a b", "  ", "a-b", "a+b",
+ESCAPE_LIKE = ["%2E", "%25", "a%2Eb", "100%", "%%", "\\n", "\\t", "\\u0041", "\\x41", "&amp;", "&#46;", "&lt;b&gt;", "$$", "${x}", "a\\\\b",
+               "\\", "\\'", "''", "`x`", "-x", "-A", "+B", "!B", "~C"]
+ODD_UVL = [e for e in ESCAPE_LIKE if "'" not in e or not e.startswith("'")] + ["a--b", "-1", "+1", "007", "1e3", "0x10", "1_000", "-", "+", "½", "%s", "{0}", "$1", "a // b", "see // the manual", "/* x */", "x /* y", "*/", "http://h/a//b", "1a", "42", "_x", "_", "a#b", "a§b", "a'b", "a;b", "a b", "  ", "a-b", "a+b",
            "a&b", "a|b", "(x)", "[y]", "{z}", "a,b", "a:b", "a=b", "<a>", "a/b", "a\\b", "a*b",
            "äöü", "ñandú", "日本語", "Δx", "\U0001f600", "xé",
            "!a", "a!", "a?", "100%", "a$", "a@b", "~t", "^u", "`v`"]
@@ -102,7 +104,7 @@ def line_like_names(forbidden):
 
 def unicode_names(extra_pool=()):
     """Arbitrary Unicode text minus surrogates/control chars, not starting with an apostrophe."""
-    pool = ["a--b", "-1", "+1", "007", "1e3", "0x10", "-", "+", "%s", "{0}", "$1", "\\1", "a b", 'say "hi"', "back\\slash", "tab", "\U0001f600", "日本", "x.y", "a&b<c>",
+    pool = ESCAPE_LIKE + ["a--b", "-1", "+1", "007", "1e3", "0x10", "-", "+", "%s", "{0}", "$1", "\\1", "a b", 'say "hi"', "back\\slash", "tab", "\U0001f600", "日本", "x.y", "a&b<c>",
             "'", "a'", "été", "AND", "x OR y", " lead", "trail ", "a/b", "{}", "[]", "()", "\"", "\"q\"",
             "a b", " x"[1:], "1", "_", "-"] + list(extra_pool)
     free = st.text(alphabet=st.characters(blacklist_categories=("Cs", "Cc")), min_size=1,
@@ -126,7 +128,7 @@ def unicode_names_nodot(extra_pool=()):
 
 def xml_names():
     """Unicode text legal in XML 1.0 attribute values and text (no control chars; U+FFFE/FFFF out)."""
-    pool = ["a&b", "a<b", "a>b", 'a"b', "a'b", "a b", "é", "日本", "&amp;", "<x/>", "]]>", "x  y",
+    pool = ESCAPE_LIKE + ["a&b", "a<b", "a>b", 'a"b', "a'b", "a b", "é", "日本", "&amp;", "<x/>", "]]>", "x  y",
             "a--b", "--", "-->", "<!--", "<!-- c -->", "gtk--3", "<![CDATA[x]]>", "<?pi?>", "&#65;", "&lt;", "%s", "{0}", "$1", "\\1"]
     free = st.text(alphabet=st.characters(blacklist_categories=("Cs", "Cc", "Cn"),
                                           blacklist_characters="\ufffe\uffff\u2028\u2029\x85"),
@@ -652,8 +654,25 @@ def json_scalars(strs):
                      st.sampled_from([0, False, "", {"$float": "0.0"}]))
 
 
+FORMAT_VOCABULARY = ["name", "value", "type", "operands", "features", "relations", "constraints", "attributes", "card_min",
+                     "card_max", "abstract", "children", "expr", "ast", "id", "min", "max", "optional", "tree", "note"]
+
+
+def record_shaped_values():
+    """User data that looks like the serialisation's own structures: lists of {'name': .., 'value': ..} records, dicts
+    keyed by the format's vocabulary."""
+    rec = st.fixed_dictionaries({"name": st.sampled_from(["http", "https", "x", "a b"])},
+                                optional={"value": st.one_of(st.integers(0, 999), st.booleans(), st.none(), st.just("v"))})
+    return st.one_of(st.lists(rec, min_size=1, max_size=3, unique_by=lambda r: r["name"]),
+                     st.dictionaries(st.sampled_from(FORMAT_VOCABULARY), st.one_of(st.integers(0, 9), st.just("s"), st.booleans()),
+                                     min_size=1, max_size=3),
+                     st.lists(st.dictionaries(st.sampled_from(FORMAT_VOCABULARY), st.integers(0, 9), min_size=1, max_size=2),
+                              min_size=1, max_size=2))
+
+
 def json_values(strs, keys):
-    return st.recursive(json_scalars(strs),
+    return st.recursive(st.one_of(json_scalars(strs), json_scalars(strs), json_scalars(strs), st.sampled_from(ESCAPE_LIKE),
+                                  record_shaped_values()),
                         lambda ch: st.one_of(st.lists(ch, max_size=3),
                                              st.dictionaries(keys, ch, max_size=3)), max_leaves=6)
 
@@ -768,6 +787,7 @@ def uvl_strings():
                          st.characters(min_codepoint=0xA1, max_codepoint=0x2FFF,
                                        blacklist_categories=("Cc", "Cs", "Cn", "Zl", "Zp", "Cf", "Co")))
     return st.one_of(st.text(alphabet=alphabet, min_size=1, max_size=8), line_like_names("'."),
+                     st.sampled_from([e for e in ESCAPE_LIKE if "'" not in e and "." not in e]),
                      st.sampled_from(["see // the manual", "a // b", "/* c */", "x /* y", "http://h/a//b", "{k 1}", "[1,2]",
                                       "features", "\\", "a\tb"]))
 
